@@ -1076,8 +1076,7 @@ pub struct PruneCase {
     pub rounds: u8,
 }
 
-fn lim(with_huge_pct: bool) -> BoxedStrategy<Lim> {
-    let _ = with_huge_pct;
+fn lim() -> BoxedStrategy<Lim> {
     prop_oneof![
         6 => prop::sample::select(vec![0u64, 1, 5, 10, 50, 99]).prop_map(Lim::Percent),
         2 => Just(Lim::Percent(100)),
@@ -1128,7 +1127,7 @@ fn prune_tree_params() -> TreeParams {
 fn prune_strategy(_ctx: &Ctx) -> BoxedStrategy<PruneCase> {
     let p = prune_tree_params();
     let popts = (
-        (lim(true), lim(true), span(), span()),
+        (lim(), lim(), span(), span()),
         (
             prop::bool::weighted(0.3),
             prop::bool::weighted(0.3),
